@@ -699,6 +699,8 @@ class MFail(Monitor):
         return [sorted((a, sorted(s)) for a, s in self.dead.items()), sorted(self.terminal), sorted(map(str, self.flagged))]
 
 # ------------------------------------------------------------------------------------------------------
+INTERPRETER_ERRORS = ("States.IntrinsicFailure", "States.Runtime", "States.ResultPathMatchFailure", "States.ParameterPathFailure")
+
 def _loose_eq(g, w):
     if isinstance(g, dict) and isinstance(w, dict):
         if set(g) != set(w):
@@ -706,7 +708,9 @@ def _loose_eq(g, w):
             if not ("Error" in w and set(g) - set(w) == {"Cause"} and not set(w) - set(g)):
                 return False
         for k in w:
-            if k == "Cause" and isinstance(g[k], str) and isinstance(w[k], str):
+            if k == "Cause" and isinstance(g[k], str) and isinstance(w[k], str) and w.get("Error") in INTERPRETER_ERRORS:
+                continue   # the wording of an error the interpreter itself raises is no part of any property
+            elif k == "Cause" and isinstance(g[k], str) and isinstance(w[k], str):
                 # the engine's own boiler-plate ("... (entered at the event id #N). ") is not part of the compared output
                 import re as _re
                 strip = lambda t: _re.sub(r" \(entered at the event id #\d+\)", "", t)
